@@ -292,16 +292,18 @@ impl FileSpec {
         )?;
         let compressed_files =
             self.try_list_of_files(&InfixFilter::Equls(infix.to_string()), Some("gz"))?;
+        let restart_tag = format!("{infix}.restart-");
 
         let restart_siblings = uncompressed_files
             .into_iter()
             .chain(compressed_files)
             // (the listing has checked the suffix already, and correctly also for a suffix with dots)
+            // (the fixed name part or the suffix may contain ".restart-", too)
             .filter(|pb| {
                 pb.file_name()
                     .unwrap()
                     .to_string_lossy()
-                    .contains(".restart-")
+                    .contains(&restart_tag)
             })
             .collect::<Vec<PathBuf>>();
 
@@ -322,7 +324,7 @@ impl FileSpec {
                 .iter()
                 .filter_map(|path| {
                     let name = path.file_name()?.to_string_lossy();
-                    let digits = &name[name.find(".restart-")? + 9..];
+                    let digits = &name[name.find(&restart_tag)? + restart_tag.len()..];
                     let end = digits
                         .find(|c: char| !c.is_ascii_digit())
                         .unwrap_or(digits.len());
@@ -393,7 +395,7 @@ impl FileSpec {
                 .and_then(|s| s.strip_suffix('.'))
                 .unwrap_or(stem);
         }
-        match stem.split_once(".restart-") {
+        match stem.rsplit_once(".restart-") {
             Some((main, digits))
                 if !digits.is_empty() && digits.bytes().all(|b| b.is_ascii_digit()) =>
             {
